@@ -61,15 +61,19 @@ def run_scenario(sc, root, bindir, focus):
                 except OSError:
                     pass
     plan = []
+
+    def sp(t):
+        # one file, several spellings (plain, ./, through the symbolic link `here -> .`): one record, one lock, one build
+        return rnd.choice([t, t, './' + t, 'here/' + t])
     for k in range(sc['ncmd']):
         kind = rnd.random()
         if sc['queries'] and kind < 0.4:
             argv = [rnd.choice(['redo-ood', 'redo-targets', 'redo-sources'])]
         elif kind < 0.7:
             sub = rnd.sample(pj['targs'], rnd.randint(1, min(3, len(pj['targs']))))
-            argv = ['redo-ifchange'] + sub
+            argv = ['redo-ifchange'] + [sp(t) for t in sub]
         else:
-            argv = ['redo', '-j%d' % rnd.choice([1, 2, 4])] + (rts if rnd.random() < 0.6 else rnd.sample(pj['targs'], 1))
+            argv = ['redo', '-j%d' % rnd.choice([1, 2, 4])] + [sp(t) for t in (rts if rnd.random() < 0.6 else rnd.sample(pj['targs'], 1))]
         plan.append((rnd.random() * sc['spread_ms'] / 1000.0, argv))
     lock = threading.Lock()
 
